@@ -3,12 +3,17 @@
 //! damaged) wrapped in a synthesised CFF (name-keyed or CID-keyed) or CFF2 table and interpreted by
 //! the real `OutlineBuilder::visit`, with a recording `OutlineSink`.
 //!
-//! input = M|K|gid|gsubrs|fds|fdsel|glyphs|charset|var|offs      (see ocaml/c18/drv.ml)
+//! input = M|K|gid|gsubrs|fds|fdsel|glyphs|charset|var|offs[|seac]   (see ocaml/c18/drv.ml)
 //!   offs: "-" or the raw offset array to use for the CharStrings INDEX (F2 reproduction)
+//!   seac: optional; `sADX,ADY,BCHAR,ACHAR` = what glyph `gid` is by construction: the seac form of
+//!         endchar with these operands, over components that are plain glyphs (used by the judge that
+//!         is independent of the model's charset lookup)
+//!   K = q: no outline; the charset of the (name-keyed) font is queried through the public
+//!         `Charset::sid_to_gid` for the SIDs 0..=255 and `Charset::id_for_glyph` for every glyph
 use allsorts::binary::read::ReadScope;
 use allsorts::cff::cff2::CFF2;
 use allsorts::cff::outline::CFF2Outlines;
-use allsorts::cff::{CFFError, CFF};
+use allsorts::cff::{CFFError, Charset, CFF};
 use allsorts::outline::{OutlineBuilder, OutlineSink};
 use allsorts::pathfinder_geometry::line_segment::LineSegment2F;
 use allsorts::pathfinder_geometry::vector::Vector2F;
@@ -38,9 +43,10 @@ struct Case {
     fds: Vec<Option<Vec<Item>>>,
     fdsel: Vec<u8>,
     glyphs: Vec<Item>,
-    charset: String, // i | e | cSID,SID
+    charset: String, // i | e | x | cSID,SID | r1:FIRST+NLEFT,... | r2:FIRST+NLEFT,...
     var: Option<Var>,
     offs: Option<Vec<u32>>,
+    seac: Option<String>,
 }
 
 fn fmt_list(l: &[Item]) -> String {
@@ -115,7 +121,7 @@ fn fmt_case(c: &Case) -> String {
         ),
     };
     format!(
-        "{}|{}|{}|{}|{}|{}|{}|{}|{}|{}",
+        "{}|{}|{}|{}|{}|{}|{}|{}|{}|{}{}",
         build_mode(),
         c.kind,
         c.gid,
@@ -128,13 +134,17 @@ fn fmt_case(c: &Case) -> String {
         match &c.offs {
             None => "-".to_string(),
             Some(o) => join(o),
+        },
+        match &c.seac {
+            None => String::new(),
+            Some(s) => format!("|{}", s),
         }
     )
 }
 
 fn parse_case(s: &str) -> Case {
     let f: Vec<&str> = s.split('|').collect();
-    assert!(f.len() == 10, "c18 input needs 10 fields");
+    assert!(f.len() == 10 || f.len() == 11, "c18 input needs 10 or 11 fields");
     let var = if f[8] == "-" {
         None
     } else {
@@ -157,7 +167,35 @@ fn parse_case(s: &str) -> Case {
         charset: f[7].to_string(),
         var,
         offs: if f[9] == "-" { None } else { Some(ints(f[9])) },
+        seac: f.get(10).map(|x| x.to_string()),
     }
+}
+
+/// custom charset in range form: (format, [(first, nLeft)])
+fn parse_ranges(cs: &str) -> Option<(u8, Vec<(u16, u16)>)> {
+    let fmt = if cs.starts_with("r1:") {
+        1
+    } else if cs.starts_with("r2:") {
+        2
+    } else {
+        return None;
+    };
+    let body = &cs[3..];
+    let ranges = if body.is_empty() {
+        vec![]
+    } else {
+        body.split(',')
+            .map(|r| {
+                let (f, n) = r.split_once('+').expect("range FIRST+NLEFT");
+                (f.parse().unwrap(), n.parse().unwrap())
+            })
+            .collect()
+    };
+    Some((fmt, ranges))
+}
+
+fn fmt_ranges(fmt: u8, ranges: &[(u16, u16)]) -> String {
+    format!("r{}:{}", fmt, ranges.iter().map(|(f, n)| format!("{}+{}", f, n)).collect::<Vec<_>>().join(","))
 }
 
 // ------------------------------------------------------------------ table synthesis
@@ -278,6 +316,13 @@ fn build_cff(c: &Case) -> Vec<u8> {
             o.extend(be(s as u32, 2));
         }
         Some(o)
+    } else if let Some((fmt, ranges)) = parse_ranges(&c.charset) {
+        let mut o = vec![fmt];
+        for (first, n_left) in ranges {
+            o.extend(be(first as u32, 2));
+            o.extend(be(n_left as u32, if fmt == 1 { 1 } else { 2 }));
+        }
+        Some(o)
     } else {
         None
     };
@@ -297,6 +342,8 @@ fn build_cff(c: &Case) -> Vec<u8> {
             0
         } else if c.charset == "e" {
             1
+        } else if c.charset == "x" {
+            2
         } else {
             offsets.1
         };
@@ -521,6 +568,18 @@ fn run_case(c: &Case) -> String {
         let mut outlines = CFF2Outlines { table: &table, tuple: tuple.as_ref() };
         let res = outlines.visit(c.gid as u16, &mut rec);
         finish(res, rec)
+    } else if c.kind == 'q' {
+        let bytes = build_cff(c);
+        let table = match ReadScope::new(&bytes).read::<CFF<'_>>() {
+            Ok(t) => t,
+            Err(e) => return format!("err:READ-{}", perr(&e)),
+        };
+        let charset: &Charset<'_> = &table.fonts[0].charset;
+        let opt = |v: Option<u16>| v.map(|g| g.to_string()).unwrap_or_else(|| "-".to_string());
+        let gids: Vec<String> = (0..=255u16).map(|sid| opt(charset.sid_to_gid(sid))).collect();
+        let n = expand(&c.glyphs).len();
+        let ids: Vec<String> = (0..=n.min(65535) as u16).map(|g| opt(charset.id_for_glyph(g))).collect();
+        format!("q:{}/{}", gids.join(","), ids.join(","))
     } else {
         let bytes = build_cff(c);
         let mut table = match ReadScope::new(&bytes).read::<CFF<'_>>() {
@@ -1170,11 +1229,7 @@ fn gen_case(rng: &mut Rng) -> Case {
             fds.push(Some(decoy));
         }
     }
-    let charset = match rng.below(10) {
-        0 => "e".to_string(),
-        1 | 2 => format!("c{}", join(&(0..n_glyphs.saturating_sub(1)).map(|i| 1 + i as u16 * 3).collect::<Vec<_>>())),
-        _ => "i".to_string(),
-    };
+    let charset = plain_charset(rng, n_glyphs);
     Case {
         kind,
         gid,
@@ -1185,36 +1240,265 @@ fn gen_case(rng: &mut Rng) -> Case {
         charset: if cff2 { "i".to_string() } else { charset },
         var,
         offs: None,
+        seac: None,
     }
 }
 
-/// seac: an accented glyph composed of two other glyphs of the same font
+// ------------------------------------------------------------------ charsets and seac
+/// Adobe StandardEncoding, code -> SID, written from the table of the specification (TN5176
+/// appendix B): independent of the crate's STANDARD_ENCODING array
+fn std_sid(code: u8) -> u16 {
+    let c = code as u16;
+    match code {
+        32..=126 => c - 31,
+        161..=175 => c - 65,
+        177..=180 => c - 66,
+        182..=189 => c - 67,
+        191 => 123,
+        193..=200 => c - 69,
+        202..=203 => c - 70,
+        205..=208 => c - 71,
+        225 => 138,
+        227 => 139,
+        232..=235 => c - 92,
+        241 => 144,
+        245 => 145,
+        248..=251 => c - 102,
+        _ => 0,
+    }
+}
+
+fn std_code_of(sid: u32) -> Option<u8> {
+    if sid == 0 {
+        return None;
+    }
+    (0..=255u8).find(|c| std_sid(*c) as u32 == sid)
+}
+
+/// a generated charset: its text, the SID of every glyph (index 0 = .notdef) and, for the range
+/// formats, the glyph ids (first, last) each range covers
+struct CsPlan {
+    text: String,
+    sids: Vec<u32>,
+    bounds: Vec<(usize, usize)>,
+}
+
+/// custom charset built from ranges (emitted as format 0, 1 or 2).  The ranges are unsorted, often
+/// adjacent to one another, mostly inside the SIDs StandardEncoding can name (1..=149), of length
+/// 1 (nLeft = 0) very often; `big` allows one long range; rarely two ranges overlap (the first glyph
+/// with a name wins) or the last range covers more glyphs than the font has.
+fn gen_custom_charset(rng: &mut Rng, fmt: u8, big: bool, min_glyphs: usize) -> CsPlan {
+    let mut ranges: Vec<(u32, u32)> = vec![]; // (first, len)
+    let nr = 1 + rng.below(5) as usize;
+    let mut total = 0usize;
+    let mut had_big = false;
+    while ranges.len() < nr || total + 1 < min_glyphs {
+        let len: u32 = match rng.below(9) {
+            0..=2 => 1,
+            3..=4 => 2,
+            5 => 3,
+            6 => 4 + rng.below(4) as u32,
+            7 if big && !had_big => {
+                had_big = true;
+                20 + rng.below(if fmt == 1 { 230 } else { 300 }) as u32
+            }
+            _ => 2,
+        };
+        let mut first = 1 + rng.below(160) as u32;
+        for _ in 0..12 {
+            first = match (ranges.is_empty(), rng.below(4)) {
+                // adjacent to an existing range: its last + 1, or ending at its first - 1
+                (false, 0) => {
+                    let (f, l) = *rng.pick(&ranges);
+                    if rng.chance(1, 2) || f <= len {
+                        f + l
+                    } else {
+                        f - len
+                    }
+                }
+                (_, 1) => 150 + rng.below(400) as u32, // outside the StandardEncoding names
+                _ => 1 + rng.below(150) as u32,
+            };
+            let clash = ranges.iter().any(|(f, l)| first < f + l && *f < first + len);
+            if !clash || rng.chance(1, 10) {
+                break;
+            }
+        }
+        if first == 0 || first + len - 1 > 65535 {
+            continue;
+        }
+        ranges.push((first, len));
+        total += len as usize;
+    }
+    let n_glyphs = 1 + total;
+    let mut sids: Vec<u32> = vec![0];
+    let mut bounds = vec![];
+    for (f, l) in &ranges {
+        bounds.push((sids.len(), sids.len() + *l as usize - 1));
+        sids.extend((0..*l).map(|i| f + i));
+    }
+    debug_assert!(sids.len() == n_glyphs);
+    let text = if fmt == 0 {
+        format!("c{}", join(&sids[1..]))
+    } else {
+        let mut rs: Vec<(u16, u16)> = ranges.iter().map(|(f, l)| (*f as u16, (*l - 1) as u16)).collect();
+        // the last range may cover more glyphs than the font has
+        if rng.chance(1, 8) {
+            let last = rs.last_mut().unwrap();
+            let room = (65535 - last.0 as u32 - last.1 as u32).min(if fmt == 1 { 255 - last.1 as u32 } else { 400 });
+            last.1 += rng.below(room.min(3) as u64 + 1) as u16;
+        }
+        fmt_ranges(fmt, &rs)
+    };
+    CsPlan { text, sids, bounds }
+}
+
+/// a small glyph that is different for every glyph id
+fn distinct_glyph(rng: &mut Rng, gid: usize) -> Vec<u8> {
+    let g = gid as i32;
+    let mut cs = vec![];
+    cs.extend(enc_int(rng, g % 1000));
+    cs.extend(enc_int(rng, 2 * (g % 500) + 1));
+    cs.push(21);
+    cs.extend(enc_int(rng, 3 + g % 90));
+    cs.extend(enc_int(rng, -(g % 7) - 1));
+    cs.push(5);
+    cs.push(14);
+    cs
+}
+
+/// run-length compress equal neighbours
+fn items_of(glyphs: Vec<Vec<u8>>) -> Vec<Item> {
+    let mut out: Vec<Item> = vec![];
+    for b in glyphs {
+        match out.last_mut() {
+            Some((lb, n)) if *lb == b => *n += 1,
+            _ => out.push((b, 1)),
+        }
+    }
+    out
+}
+
+/// any charset that is valid for a font with `n_glyphs` glyphs (no seac involved)
+fn plain_charset(rng: &mut Rng, n_glyphs: usize) -> String {
+    let n = n_glyphs.saturating_sub(1);
+    match rng.below(12) {
+        0 => "e".to_string(),
+        1 => "x".to_string(),
+        2 | 3 => format!("c{}", join(&(0..n).map(|i| 1 + i as u16 * 3).collect::<Vec<_>>())),
+        4 | 5 if n > 0 => {
+            // ranges of random lengths covering exactly the glyphs
+            let fmt = 1 + rng.below(2) as u8;
+            let mut rs: Vec<(u16, u16)> = vec![];
+            let mut left = n;
+            let mut first = 1 + rng.below(40) as u16;
+            while left > 0 {
+                let len = (1 + rng.below(4) as usize).min(left);
+                rs.push((first, (len - 1) as u16));
+                first += len as u16 + rng.below(3) as u16;
+                left -= len;
+            }
+            fmt_ranges(fmt, &rs)
+        }
+        _ => "i".to_string(),
+    }
+}
+
+/// seac: an accented glyph composed of two other glyphs of the same name-keyed font.  The charset is
+/// ISOAdobe / Expert / ExpertSubset or custom in format 0, 1 or 2; the components are chosen ON
+/// PURPOSE at the first / last / only glyph of a charset range, next to a range, at codes on both
+/// sides of every gap of StandardEncoding (126/161, 228/232, 251) and sometimes at codes that name
+/// no glyph of the font.
 fn gen_seac(rng: &mut Rng) -> Case {
-    let custom = rng.chance(1, 3);
-    // glyph 0 = .notdef, 1.. = components, last = the composite
-    let n_comp = 2 + rng.below(3) as usize;
-    let mut glyphs: Vec<Item> = vec![];
+    // ---- the charset and the number of glyphs
+    let sel = rng.below(20);
+    let plan: CsPlan = match sel {
+        0..=3 => {
+            // ISOAdobe: glyph id = SID.  Small fonts, fonts that end around a gap, the full 229 glyphs
+            let n = match rng.below(8) {
+                0 => 229,
+                1 => 150 + rng.below(80) as usize,
+                2 => *rng.pick(&[95usize, 96, 97, 140, 141, 146, 147, 150, 151, 228, 230]),
+                _ => 4 + rng.below(12) as usize,
+            };
+            CsPlan { text: "i".to_string(), sids: (0..n as u32).collect(), bounds: vec![] }
+        }
+        4 => CsPlan { text: (if rng.chance(1, 2) { "e" } else { "x" }).to_string(), sids: vec![0; 4 + rng.below(6) as usize], bounds: vec![] },
+        5..=8 => gen_custom_charset(rng, 0, false, 4),
+        9..=14 => {
+            let big = rng.chance(1, 6);
+            gen_custom_charset(rng, 1, big, 4)
+        }
+        _ => {
+            let big = rng.chance(1, 6);
+            gen_custom_charset(rng, 2, big, 4)
+        }
+    };
+    let n_glyphs = plan.sids.len();
+    let predefined_expert = sel == 4;
+
+    // ---- which glyphs can be named by a StandardEncoding code, and where they sit in their range
+    let named: Vec<usize> = (1..n_glyphs)
+        .filter(|g| {
+            let sid = plan.sids[*g];
+            // the first glyph carrying the name is the one a code designates
+            std_code_of(sid).is_some() && plan.sids[1..*g].iter().all(|s| *s != sid)
+        })
+        .collect();
+    let mut boundary: Vec<usize> = vec![];
+    for (a, b) in &plan.bounds {
+        boundary.push(*a);
+        boundary.push(*b);
+    }
+    if plan.text == "i" {
+        // both sides of the gaps of StandardEncoding, as SIDs (= glyph ids)
+        boundary.extend([1usize, 95, 96, 110, 111, 123, 137, 138, 139, 140, 143, 144, 145, 146, 149]);
+        boundary.push(n_glyphs - 1);
+    }
+    let boundary: Vec<usize> = boundary.into_iter().filter(|g| named.contains(g)).collect();
+    let pick_comp = |rng: &mut Rng| -> Option<usize> {
+        if !boundary.is_empty() && rng.chance(3, 4) {
+            Some(*rng.pick(&boundary))
+        } else if !named.is_empty() {
+            Some(*rng.pick(&named))
+        } else {
+            None
+        }
+    };
+    // a code for a component: usually the code of a glyph of the font, sometimes another one
+    let code_for = |rng: &mut Rng| -> (i32, Option<usize>) {
+        match rng.below(14) {
+            0 => (rng.range(0, 255) as i32, None),
+            1 => (*rng.pick(&[0i32, 31, 32, 126, 127, 160, 161, 228, 229, 231, 232, 245, 251, 252, 255]), None),
+            _ => match pick_comp(rng) {
+                Some(g) => (std_code_of(plan.sids[g]).unwrap() as i32, Some(g)),
+                None => (rng.range(32, 126) as i32, None),
+            },
+        }
+    };
+    let (bc, bg) = code_for(rng);
+    let (ac, ag) = code_for(rng);
+
+    // ---- glyphs: the components are structured programs, the others small and all different
     let gsize = pool_size(rng).min(6);
     let lsize = 1 + rng.below(3) as usize;
     let mut pools = Pools { cff2: false, g: vec![None; gsize], l: Some(vec![None; lsize]) };
-    for _ in 0..=n_comp {
-        let mut g = Gen { rng, cff2: false, frac: false, big: false, toks: vec![], stems: 0 };
-        let width = g.rng.chance(1, 2);
-        g.path(width);
-        let toks = std::mem::take(&mut g.toks);
-        let want = rng.below(2) as usize;
-        glyphs.push((factor(rng, &toks, &mut pools, 0, want), 1));
+    let mut glyphs: Vec<Vec<u8>> = vec![];
+    for g in 0..n_glyphs {
+        if Some(g) == bg || Some(g) == ag || (g < 8 && rng.chance(1, 3)) {
+            let mut gen = Gen { rng, cff2: false, frac: false, big: false, toks: vec![], stems: 0 };
+            let width = gen.rng.chance(1, 2);
+            gen.path(width);
+            let toks = std::mem::take(&mut gen.toks);
+            let want = rng.below(2) as usize;
+            glyphs.push(factor(rng, &toks, &mut pools, 0, want));
+        } else {
+            glyphs.push(distinct_glyph(rng, g));
+        }
     }
-    // code -> gid: ISOAdobe: gid = STANDARD_ENCODING[code] = code - 31 for 32..126; custom: SIDs chosen
-    let (charset, code_of): (String, Vec<i32>) = if custom {
-        // glyph i (1-based) gets SID i+33 ('A' is SID 34 = code 65): code = SID + 31
-        let n = n_comp + 1;
-        (format!("c{}", join(&(1..=n).map(|i| 33 + i as u16).collect::<Vec<_>>())), (0..=n).map(|i| if i == 0 { 0 } else { 64 + i as i32 }).collect())
-    } else {
-        ("i".to_string(), (0..=n_comp + 1).map(|i| if i == 0 { 0 } else { 31 + i as i32 }).collect())
-    };
-    let base = 1 + rng.below(n_comp as u64) as usize;
-    let accent = 1 + rng.below(n_comp as u64) as usize;
+    // the composite replaces a glyph that is not a component (glyph 0 when there is no other)
+    let free: Vec<usize> = (0..n_glyphs).filter(|g| Some(*g) != bg && Some(*g) != ag).collect();
+    let gid = if free.len() > 1 { free[1 + rng.below(free.len() as u64 - 1) as usize] } else { free[0] };
     let mut cs = vec![];
     if rng.chance(1, 2) {
         let w = rng.range(-50, 600) as i32;
@@ -1224,31 +1508,61 @@ fn gen_seac(rng: &mut Rng) -> Case {
     cs.extend(enc_int(rng, adx));
     let ady = rng.range(-200, 200) as i32;
     cs.extend(enc_int(rng, ady));
-    let bc = if rng.chance(1, 12) { rng.range(0, 255) as i32 } else { code_of[base] };
-    let ac = if rng.chance(1, 12) { rng.range(0, 255) as i32 } else { code_of[accent] };
     cs.extend(enc_int(rng, bc));
     cs.extend(enc_int(rng, ac));
     cs.push(14);
-    if rng.chance(1, 10) {
+    let mut seac = Some(format!("s{},{},{},{}", adx, ady, bc, ac));
+    if rng.chance(1, 12) {
         damage(rng, &mut cs);
+        seac = None;
     }
-    glyphs.push((cs, 1));
-    let gid = glyphs.len() - 1;
+    if predefined_expert {
+        seac = None;
+    }
+    glyphs[gid] = cs;
     Case {
         kind: 't',
         gid,
         gsubrs: pool_items(&pools.g, &[11]),
         fds: vec![pools.l.as_ref().map(|l| pool_items(l, &[11]))],
         fdsel: vec![],
-        glyphs,
-        charset,
+        glyphs: items_of(glyphs),
+        charset: plan.text,
         var: None,
         offs: None,
+        seac,
+    }
+}
+
+/// charset query: every SID 0..=255 through `Charset::sid_to_gid`, every glyph through `id_for_glyph`
+fn gen_query(rng: &mut Rng) -> Case {
+    let plan = match rng.below(12) {
+        0 => CsPlan { text: "i".to_string(), sids: vec![0; 3 + rng.below(300) as usize], bounds: vec![] },
+        1 => CsPlan { text: (if rng.chance(1, 2) { "e" } else { "x" }).to_string(), sids: vec![0; 3 + rng.below(200) as usize], bounds: vec![] },
+        2 | 3 => gen_custom_charset(rng, 0, true, 2),
+        4..=7 => gen_custom_charset(rng, 1, true, 2),
+        _ => gen_custom_charset(rng, 2, true, 2),
+    };
+    Case {
+        kind: 'q',
+        gid: 0,
+        gsubrs: vec![],
+        fds: vec![None],
+        fdsel: vec![],
+        glyphs: vec![(vec![14], plan.sids.len())],
+        charset: plan.text,
+        var: None,
+        offs: None,
+        seac: None,
     }
 }
 
 pub fn gen(rng: &mut Rng) -> String {
-    let c = if rng.chance(1, 12) { gen_seac(rng) } else { gen_case(rng) };
+    let c = match rng.below(24) {
+        0..=2 => gen_seac(rng),
+        3 => gen_query(rng),
+        _ => gen_case(rng),
+    };
     fmt_case(&c)
 }
 
